@@ -197,13 +197,23 @@ def rand_string(r, expression_capable=False, minlen=None, maxlen=None, multiline
 
 
 def num_tok(v):
+    """Numbers are written in plain decimal notation; a float whose repr uses an exponent (|v| < 1e-4 or >= 1e16) is still written
+    in plain decimals (0.00001, 10000000000000000.0) - the printer may then write it back in exponent form."""
     if isinstance(v, float):
         t = repr(v)
-        if "e" in t or "E" in t or "inf" in t or "nan" in t:
-            v = round(v, 3)
-            t = repr(v)
+        if "inf" in t or "nan" in t:
+            v = 0.0
+            t = "0.0"
+        if "e" in t or "E" in t:
+            import decimal
+            t = format(decimal.Decimal(t), "f")
+            if "." not in t:
+                t += ".0"
         return Tok("num", t), v
     return Tok("num", str(v)), v
+
+
+EXTREME_FLOATS = [0.00001, 0.000025, 0.0000001, 0.00009999, 10000000000000000.0, 2.5e17, 1e22, 123456789.123456789, 0.1 + 0.2]
 
 
 def rand_number(r, node, integer=False, fault=None):
@@ -220,6 +230,12 @@ def rand_number(r, node, integer=False, fault=None):
         lo = -1000 if hi is None else hi - 1000
     if hi is None:
         hi = lo + 2000
+    if not integer and r.random() < 0.06:
+        # magnitudes whose float repr switches to exponent notation, still inside the keyword's bounds
+        cands = [x for x in EXTREME_FLOATS + [-x for x in EXTREME_FLOATS] if (node.get("minimum") is None or x >= node["minimum"])
+                 and (node.get("maximum") is None or x <= node["maximum"]) and (xlo is None or x > xlo)]
+        if cands:
+            return r.choice(cands)
     if integer or r.random() < 0.5:
         a, b = int(-(-lo // 1)), int(hi // 1)
         if a > b:
@@ -250,7 +266,7 @@ def rand_hex(r):
 def rand_expr(r, small=True):
     """(source text, intended tree) - the known mechanism of finding C10/mod-at-comparison-level is never generated here."""
     while True:
-        t = X.rand_tree(r, r.randint(1, 3 if small else 6), rich=False)
+        t = X.rand_tree(r, r.randint(1, 3 if small else 6), rich=r.random() < 0.3)
         if not X.has_mod(t):
             break
     return "(" + X.render(t, r, 0.1) + ")", t
